@@ -28,6 +28,11 @@ Floor
                               bindings whenever any exist, so "no survivor" really means that no
                               candidate can match.
 
+* `addVar_min`, `rank_repeated_var_most_specific`: the rank accumulator keeps ONE entry per variable and
+                              that entry is the minimum over the variable's occurrences (≤ each, attained
+                              by one) — docs/source/developer_guide/operators.rst l.348 "candidate rank =
+                              structural rank + per-variable min(rank)".
+
 Ceiling (`rank_respects_instantiation`: "a substitution instance never ranks worse")
 * `RankRespectsInstantiation` (the full statement) is kept visible and is **refuted** for the rank
   the code computes: `rank_respects_instantiation_refuted` (`TSB[a:~A,b:~B]` is an instance of `~T`
@@ -338,6 +343,91 @@ theorem output_is_substitution {os : List Overload} {args : List Arg} {s : Survi
     rw [hw.1]
     simp [outputOf, hn]
 
+/-! ## a repeated variable counts once, at its most specific occurrence -/
+
+/-- **addVar_min.** `RankAccumulator::add_var` (operator_dispatch.h l.1106-1110) stores under its key the
+    MINIMUM of what was stored before and the new cost (the new cost when the key is new), and leaves every
+    other key alone: the documented "per-variable min(rank)". -/
+theorem addVar_min (a : RankAcc) (k : Key) (r : Nat) :
+    lookup (a.addVar k r).vars k
+        = some (match lookup a.vars k with
+                | none => r
+                | some old => min old r) ∧
+      (a.addVar k r).structural = a.structural ∧
+      ∀ k', k' ≠ k → lookup (a.addVar k r).vars k' = lookup a.vars k' := by
+  refine ⟨?_, addVar_structural a k r, fun k' h => by rw [lookup_addVar]; simp [h]⟩
+  rw [lookup_addVar]
+  simp only [if_true]
+  cases lookup a.vars k <;> simp [optMin]
+
+theorem optMin_some {a b : Option Nat} {m : Nat} (h : optMin a b = some m) :
+    (a = some m ∨ b = some m) ∧ (∀ x, a = some x → m ≤ x) ∧ (∀ y, b = some y → m ≤ y) := by
+  cases a with
+  | none =>
+    simp only [optMin_none_left] at h
+    subst h
+    exact ⟨Or.inr rfl, fun x hx => (by cases hx), fun y hy => (by cases hy; exact Nat.le_refl _)⟩
+  | some x =>
+    cases b with
+    | none =>
+      simp only [optMin_none_right, Option.some.injEq] at h
+      subst h
+      exact ⟨Or.inl rfl, fun x' hx => (by cases hx; exact Nat.le_refl _), fun y hy => (by cases hy)⟩
+    | some y =>
+      simp only [optMin, Option.some.injEq] at h
+      refine ⟨?_, fun x' hx => (by cases hx; omega), fun y' hy => (by cases hy; omega)⟩
+      by_cases hxy : x ≤ y
+      · left; congr 1; omega
+      · right; congr 1; omega
+
+/-- the stored cost of a variable is at most its cost in any one parameter -/
+theorem keyRankParams_le_mem {k : Key} : ∀ {ps : List Param} {p : Param} {b : Nat}, p ∈ ps →
+    keyRankParam k p = some b → ∃ m, keyRankParams k ps = some m ∧ m ≤ b
+  | [], _, _, hp, _ => by cases hp
+  | q :: qs, p, b, hp, hb => by
+    simp only [keyRankParams]
+    rcases List.mem_cons.mp hp with rfl | hin
+    · cases hq : optMin (keyRankParam k p) (keyRankParams k qs) with
+      | none => rw [hb] at hq; cases hr : keyRankParams k qs <;> simp [hr, optMin] at hq
+      | some m => exact ⟨m, rfl, (optMin_some hq).2.1 b hb⟩
+    · obtain ⟨m0, hm0, hle⟩ := keyRankParams_le_mem (k := k) hin hb
+      cases hq : optMin (keyRankParam k q) (keyRankParams k qs) with
+      | none => rw [hm0] at hq; cases hr : keyRankParam k q <;> simp [hr, optMin] at hq
+      | some m =>
+        have := (optMin_some hq).2.2 m0 hm0
+        exact ⟨m, rfl, by omega⟩
+
+/-- … and it is the cost of the variable in one of the parameters -/
+theorem keyRankParams_attained {k : Key} : ∀ {ps : List Param} {m : Nat}, keyRankParams k ps = some m →
+    ∃ p, p ∈ ps ∧ keyRankParam k p = some m
+  | [], _, h => by simp [keyRankParams] at h
+  | q :: qs, m, h => by
+    simp only [keyRankParams] at h
+    rcases (optMin_some h).1 with hq | hr
+    · exact ⟨q, List.mem_cons_self, hq⟩
+    · obtain ⟨p, hp, hpm⟩ := keyRankParams_attained (k := k) hr
+      exact ⟨p, List.mem_cons_of_mem _ hp, hpm⟩
+
+/-- **rank_repeated_var_most_specific.**  `operator_rank` is the structural count plus ONE entry per variable
+    (unique keys), and the entry of a variable that occurs in several parameters — at whatever nesting depths —
+    is the minimum of its per-parameter costs (`keyRankParam`, itself the minimum over the occurrences inside
+    one pattern): it is ≤ the cost of every occurrence and it is attained by one of them.  So a variable that
+    occurs bare (10000) and inside a `TSL` (5000) counts 5000, never 10000 — for every parameter list. -/
+theorem rank_repeated_var_most_specific (ps : List Param) (k : Key) :
+    operatorRank ps = structParams ps + sumVals (rankAcc ps).vars ∧
+      (keysOf (rankAcc ps).vars).Nodup ∧
+      lookup (rankAcc ps).vars k = keyRankParams k ps ∧
+      (∀ p ∈ ps, ∀ b, keyRankParam k p = some b → ∃ m, lookup (rankAcc ps).vars k = some m ∧ m ≤ b) ∧
+      (∀ m, lookup (rankAcc ps).vars k = some m → ∃ p, p ∈ ps ∧ keyRankParam k p = some m) := by
+  have h := rankAcc_spec ps
+  refine ⟨operatorRank_eq ps, h.1, h.2.2 k, ?_, ?_⟩
+  · intro p hp b hb
+    rw [h.2.2 k]
+    exact keyRankParams_le_mem hp hb
+  · intro m hm
+    rw [h.2.2 k] at hm
+    exact keyRankParams_attained hm
+
 /-! ## ceiling: does the rank respect instantiation? -/
 
 /-- the variable behind key `k` occurs in the parameter list -/
@@ -517,6 +607,24 @@ example : ∀ k v w, keyRankT k rEx v = some w → keyRankParams k psEx = none :
       exact h.1
     subst hn
     decide
+/-- `addVar_min` / `rank_repeated_var_most_specific` are not vacuous: in `f(~T, TSL[~T,~N])` the variable `T`
+    costs 10000 in the first parameter and 5000 in the second, the accumulator keeps 5000 (in either parameter
+    order), and the rank is 5001 — not 10001 -/
+example : keyRankParam (.ts 0) (.input (.var 0 [])) = some 10000 ∧
+    keyRankParam (.ts 0) (.input (.tsl (.var 0 []) (.var 5 []))) = some 5000 ∧
+    lookup (rankAcc psEx).vars (.ts 0) = some 5000 ∧ lookup (rankAcc psEx.reverse).vars (.ts 0) = some 5000 ∧
+    operatorRank psEx = 5001 ∧ operatorRank psEx.reverse = 5001 := by decide
+/-- the critical pair: `A(~T, TSL[~T,~N])` (5001) against `B(TS[~s], TSL[~U,~N])` (5102) on
+    `(TS[int], TSL[TS[int],2])`: `A` wins in both registration orders (with 10001 for `A`, `B` would) -/
+private def ovDepthA : Overload := { label := 20, params := psEx, out := some (.var 0 []) }
+private def ovDepthB : Overload :=
+  { label := 21, params := [.input (.ts (.var 1 [])), .input (.tsl (.var 2 []) (.var 5 []))], out := some (.var 2 []) }
+private def argsDepth : List Arg := [.ts (.ts 1), .ts (.tsl (.ts 1) 2)]
+example : operatorRank ovDepthB.params = 5102 ∧
+    resolveCall [ovDepthA, ovDepthB] argsDepth
+      = .winner ⟨ovDepthA, { ts := [(0, .ts 1)], sz := [(5, 2)] }, 5001⟩ (some (.ts 1)) ∧
+    resolveCall [ovDepthB, ovDepthA] argsDepth
+      = .winner ⟨ovDepthA, { ts := [(0, .ts 1)], sz := [(5, 2)] }, 5001⟩ (some (.ts 1)) := by decide
 /-- `inst_subst_exact`'s hypotheses hold there: the resolved type `TSL[TS[int],2]` has no wildcard -/
 example : subst (.tsl (.var 0 []) (.var 5 [])) { ts := [(0, .ts 1)], sz := [(5, 2)] } = some (.tsl (.ts 1) 2) ∧
     noWild (derefAll (.tsl (.ts 1) 2)) = true := by decide
